@@ -26,6 +26,11 @@ import TnVerif.Model.Einsum
 import TnVerif.Model.DerivOps
 import TnVerif.Model.PartialSet
 import TnVerif.Model.Accepted
+import TnVerif.Model.Sobol
+import TnVerif.Model.TruncAnova
+import TnVerif.Model.RectMaxvol
+import TnVerif.Model.RoundTucker
+import TnVerif.Model.SqueezeOps
 /-
   Line-protocol driver (DESIGN §2.6).  One request per line on stdin, one answer per line on
   stdout.  Tokens are separated by blanks; numbers are integers or `p/q`.
@@ -246,6 +251,28 @@ def toNatQ (q : Q) : Nat := (roundHalfEven q.v).toNat
 
 def showRows (ncols : Nat) (rows : List (List Nat)) : String :=
   s!"R {rows.length} {ncols}" ++ String.join (rows.map fun r => String.join (r.map fun n => s!" {n}"))
+
+
+/-! round_tucker sweep over plain rationals: a mode = Tucker factor (identity if absent, as the code sets `torch.eye`) + TT core -/
+def tkOfTMode (m : TMode Q) : Option (TkMode Rat) :=
+  match m.core with
+  | .tt r0 s r1 f =>
+    let core : Mode Rat := { rl := r0, rr := r1, n := s, G := fun j a b => (f a j b).v }
+    match m.U with
+    | none => some (TkMode.ofMode core)
+    | some U => some { rows := U.rows, U := fun i j => (U.f i j).v, core := core }
+  | .cp .. => none
+
+def tkTab (m : TkMode Rat) : TMode Q :=
+  let c := m.core
+  let arr : Array Rat := Array.ofFn (n := c.rl * c.n * c.rr) fun t =>
+    c.G ((t.val / c.rr) % c.n) (t.val / (c.rr * c.n)) (t.val % c.rr)
+  let ua : Array Rat := Array.ofFn (n := m.rows * c.n) fun t => m.U (t.val / c.n) (t.val % c.n)
+  { core := .tt c.rl c.n c.rr (fun a j b => ⟨if a < c.rl ∧ j < c.n ∧ b < c.rr then arr.getD ((a * c.n + j) * c.rr + b) 0 else 0, 0⟩),
+    U := some { rows := m.rows, cols := c.n, f := fun i j => ⟨if i < m.rows ∧ j < c.n then ua.getD (i * c.n + j) 0 else 0, 0⟩ } }
+
+def qrOfMats (qm rm : Mat Q) : QRAns Rat :=
+  { k := qm.cols, Q := fun row c => (qm.f row c).v, Rm := fun c d => (rm.f c d).v }
 
 
 def run (cmd : String) : PM String := do
@@ -701,6 +728,135 @@ def run (cmd : String) : PM String := do
       let t ← pTensor
       let x := sumAllTT t.tt
       return "ok S " ++ showQ x ++ s!" N {toNatQ x}"
+  | "sobol" | "mean_dimension" | "dimension_distribution" => do
+      -- sobol <normalize> <ρ> <sgn> <ρ2> <sgn2> <N> (<len> w.. | -)*N <tensor> <mask>
+      -- mean_dimension <ρ> <sgn> <N> marginals <tensor>
+      -- dimension_distribution <order> <ρ> <sgn> <ρ2> <sgn2> <N> marginals <tensor>
+      let norm ← if cmd == "sobol" then pNat else pure 1
+      let order ← if cmd == "dimension_distribution" then pNat else pure 0
+      let ρ ← pQ; let sg ← pQ
+      let ρ2 ← if cmd == "mean_dimension" then pure ρ else pQ
+      let sg2 ← if cmd == "mean_dimension" then pure sg else pQ
+      let n ← pNat
+      let mut ws : Array (Option (Nat → Q)) := #[]
+      for _ in [0:n] do
+        let k ← next
+        if k == "-" then ws := ws.push none
+        else
+          match k.toNat? with
+          | none => throw s!"nat or - expected: {k}"
+          | some len =>
+            let a ← pArr len
+            ws := ws.push (some (fun i => a.getD i 0))
+      let t ← pTensor
+      if cmd == "mean_dimension" then
+        match t.memo.meanDimension ws.toList ρ sg with
+        | .error e => return "err " ++ showErr e
+        | .ok x => return "ok S " ++ showQ x
+      if cmd == "dimension_distribution" then
+        match t.memo.dimensionDistribution order ws.toList ρ sg ρ2 sg2 with
+        | .error e => return "err " ++ showErr e
+        | .ok l => return "ok L " ++ showQs l
+      let mask ← pTensor
+      match t.memo.sobol mask.memo ws.toList (norm != 0) ρ sg ρ2 sg2 with
+      | .error e => return "err " ++ showErr e
+      | .ok (.inl r) => return "ok " ++ showTensor r
+      | .ok (.inr x) => return "ok S " ++ showQ x
+  | "truncate_anova" | "truncate_anova_whole" => do
+      -- truncate_anova <keepdim 0|1> <n> (<k> <w>^k)^n <mask tensor> <tensor> : marginals as in `anova`.
+      -- `truncate_anova` runs the steps of `Tensor.truncateAnova` one by one, tabulating every intermediate tensor;
+      -- `truncate_anova_whole` calls `Tensor.truncateAnova` itself (same answer, slower: nested closures)
+      let keep ← pNat
+      let n ← pNat
+      let mut ws : Array (Nat → Q) := #[]
+      for _ in [0:n] do
+        let k ← pNat
+        let a ← pArr k
+        ws := ws.push (fun i => a.getD i 0)
+      let mask ← pTensor
+      let t ← pTensor
+      let mask := mask.memo
+      let t := t.memo
+      if mask.length != t.length then return "err dim"
+      if keep == 0 && mask.denseAll.any (fun q => q.v < -1/2) then return "err negative"
+      let res :=
+        if cmd == "truncate_anova_whole" then t.truncateAnova toNatQ mask (keep != 0) ws.toList
+        else
+          let a := (t.anova ws.toList).memo
+          let am := (a.maskWith (anovaIdxs t.shape) mask).memo
+          let u := am.undoAnova.memo
+          if keep != 0 then some (.inl u) else Tensor.truncateAnovaSqueeze toNatQ mask u
+      match res with
+      | none => return "err raise"
+      | some (.inl r) => return "ok " ++ showTensor r.memo
+      | some (.inr x) => return "ok S " ++ showQ x
+  | "rect_maxvol" => do
+      -- rect_maxvol N r tol maxK min_add_K minK identity(0/1) top_k_index  <tmp_index: count then entries>  <C0: N*r entries, row-major>
+      -- optional ints: an integer or `none`
+      let n ← pNat; let r ← pNat; let tol ← pQ
+      let pOpt : PM (Option Int) := do
+        let t ← next
+        if t == "none" then return none
+        match t.toInt? with
+        | some v => return some v
+        | none => throw s!"int or none expected: {t}"
+      let maxK ← pOpt; let minAddK ← pOpt; let minK ← pOpt
+      let ident ← pNat
+      let topK ← pInt
+      let idx ← pNatList
+      let a ← pArr (n * r)
+      let ids : Array Nat := idx.toArray
+      let c0 : Nat → Nat → Rat := fun l k => if l < n ∧ k < r then (a.getD (l * r + k) 0).v else 0
+      match pyRectMaxvol n r tol.v maxK minAddK minK (ident != 0) topK (fun k => ids.getD k 0) c0 with
+      | none => return "err ValueError"
+      | some res =>
+        let cs : List Q := (List.range n).flatMap fun l => (List.range res.K).map fun k => (⟨res.C.get l k, 0⟩ : Q)
+        return "ok K " ++ s!"{res.K}" ++ " idx " ++ showNats res.index ++ " C " ++ showQs cs
+  | "round_tucker_sweep" => do
+      -- the loop of `Tensor.round_tucker` on the state after `orthogonalize(-1)`, with the recorded kernel answers of every iteration
+      let eps ← pQ
+      let nsteps ← pNat
+      let mut answers : Array (TkAns Rat × Nat) := #[]
+      for _ in [0:nsteps] do
+        let rmax ← pNat
+        let q1 ← pMat; let r1 ← pMat
+        let u ← pMat
+        let n ← pNat
+        let sv ← pArr n
+        let vh ← pMat
+        let qf ← pMat; let rf ← pMat
+        let q2 ← pMat; let r2 ← pMat
+        let B : SVDAns Rat := { n := n, U := fun a l => (u.f a l).v, S := fun l => (sv.getD l 0).v, Vh := fun l j _ => (vh.f l j).v }
+        answers := answers.push ({ qr := qrOfMats q1 r1, svd := B, fq := qrOfMats qf rf, rq := qrOfMats q2 r2 }, rmax)
+      let t ← pTensor
+      match t.mapM tkOfTMode with
+      | none => return "err cp_core"
+      | some ms =>
+        let out := roundTuckerSem zeroThr eps.v ms answers.toList
+        return "ok " ++ showTensor (out.map tkTab)
+  | "squeeze" | "unsqueeze" | "unbind" => do
+      -- squeeze (_ | <k> <d>^k) <tensor>   (tn.squeeze(t) / tn.squeeze(t, dim) with dim an int (k = 1) or a list)
+      -- unsqueeze <k> <d>^k <tensor>       (tn.unsqueeze(t, dim))
+      -- unbind <dim> <tensor>              (tn.unbind(t, dim))
+      let showSqErr : SqErr → String := fun e =>
+        match e with | .index => "index" | .assertion => "assertion" | .key e => showErr e
+      let showItem : Tensor Q ⊕ Q → String := fun r =>
+        match r with | .inl v => showTensor v | .inr x => "S " ++ showQ x
+      if cmd == "unbind" then
+        let dim ← pInt; let t ← pTensor
+        match t.memo.unbind dim with
+        | .error e => return "err " ++ showSqErr e
+        | .ok rs => return s!"ok L {rs.length}" ++ String.join (rs.map fun r => " " ++ showItem r)
+      else
+        let dims ← if cmd == "squeeze" then do
+            let s ← get
+            if s.toks[s.pos]? == some "_" then do let _ ← next; pure none else do let l ← pIntList; pure (some l)
+          else do let l ← pIntList; pure (some l)
+        let t ← pTensor
+        let r := if cmd == "squeeze" then t.squeeze dims else t.unsqueeze (dims.getD [])
+        match r with
+        | .error e => return "err " ++ showSqErr e
+        | .ok r => return "ok " ++ showItem r
   | _ => throw s!"unknown command {cmd}"
 
 def handle (line : String) : String :=
